@@ -4,7 +4,22 @@ import numpy as np
 
 
 def materialize(d, shape):
-    """Return a fresh float ndarray of `shape` described by `d`."""
+    """Return a fresh float ndarray of `shape` described by `d`.  An optional
+    "lay" key chooses the memory layout ("F": Fortran order, "strided": a
+    non-contiguous view into a larger private buffer); the values are the same."""
+    a = _materialize(d, shape)
+    lay = d.get("lay")
+    if lay == "F" and a.ndim >= 2:
+        return np.asfortranarray(a)
+    if lay == "strided" and a.ndim >= 1 and a.size:
+        buf = np.zeros(tuple(2 * n for n in a.shape))
+        view = buf[tuple(slice(None, None, 2) for _ in a.shape)]
+        view[...] = a
+        return view
+    return a
+
+
+def _materialize(d, shape):
     shape = tuple(int(s) for s in shape)
     n = int(np.prod(shape)) if len(shape) else 1
     k = d["d"]
@@ -35,6 +50,8 @@ def simplify(d):
     """Candidates that are simpler than d (for the shrinker), most drastic first."""
     k = d["d"]
     out = []
+    if "lay" in d:
+        out.append({kk: vv for kk, vv in d.items() if kk != "lay"})
     if k in ("rand", "zmix"):
         lo, hi = float(d["lo"]), float(d["hi"])
         out.append({"d": "const", "x": round((lo + hi) / 2, 3)})
